@@ -19,11 +19,20 @@ import session as S
 PID = "C19"
 REP = {"ns": ["f", "q", "λ", "_"], "dg": ["7", "3"], "mi": ["-"], "dt": ["."], "co": [":"], "dl": ["$"], "lp": ["("], "cm": [","], "rp": [")"],
        "sp": [" ", "\t"], "ot": ["#", "{", "%", "~", "\u00b6", "!", ";", "@"]}
-HOSTS = [("mrow", "<math><mrow{I}><mi arg='a'>x</mi><mo>+</mo><mi arg='b'>y</mi></mrow></math>", {"a": "x", "b": "y"}),
-         ("msup", "<math><msup{I}><mi arg='a'>x</mi><mn arg='b'>2</mn></msup></math>", {"a": "x", "b": "2"}),
-         ("mfrac", "<math><mfrac{I}><mi arg='a'>x</mi><mi arg='b'>y</mi></mfrac></math>", {"a": "x", "b": "y"}),
-         ("mi", "<math><mi{I}>x</mi><mo>=</mo><mn>1</mn></math>", {}),
-         ("mtable", "<math><mtable{I}><mtr><mtd arg='a'><mi>x</mi></mtd><mtd arg='b'><mi>y</mi></mtd></mtr></mtable></math>", {"a": "x", "b": "y"})]
+# (name, template, {arg name: what it is spoken as}, {arg name: where the arg sits relative to the element with the intent})
+# placements are those of Intent.tla: a reference reaches an arg through elements that have neither an arg nor an intent of their own
+HOSTS = [("mrow", "<math><mrow{I}><mi arg='a'>x</mi><mo>+</mo><mi arg='b'>y</mi></mrow></math>", {"a": "x", "b": "y"}, {"a": "child", "b": "child"}),
+         ("msup", "<math><msup{I}><mi arg='a'>x</mi><mn arg='b'>2</mn></msup></math>", {"a": "x", "b": "2"}, {"a": "child", "b": "child"}),
+         ("mfrac", "<math><mfrac{I}><mi arg='a'>x</mi><mi arg='b'>y</mi></mfrac></math>", {"a": "x", "b": "y"}, {"a": "child", "b": "child"}),
+         ("mi", "<math><mi{I}>x</mi><mo>=</mo><mn>1</mn></math>", {}, {}),
+         ("mtable", "<math><mtable{I}><mtr><mtd arg='a'><mi>x</mi></mtd><mtd arg='b'><mi>y</mi></mtd></mtr></mtable></math>", {"a": "x", "b": "y"}, {"a": "below-plain", "b": "below-plain"}),
+         ("below-plain", "<math><mrow{I}><msqrt><mi arg='a'>x</mi></msqrt><mo>+</mo><mi arg='b'>y</mi></mrow></math>", {"a": "x", "b": "y"}, {"a": "below-plain", "b": "child"}),
+         ("below-other-arg", "<math><mrow{I}><msqrt arg='c'><mi arg='a'>x</mi></msqrt><mo>+</mo><mi arg='b'>y</mi></mrow></math>", {"a": "x", "b": "y", "c": "x"},
+          {"a": "below-other-arg", "b": "child", "c": "child"}),
+         ("below-other-intent", "<math><mrow{I}><msqrt intent='blarg($a)'><mi arg='a'>x</mi></msqrt><mo>+</mo><mi arg='b'>y</mi></mrow></math>", {"a": "x", "b": "y"},
+          {"a": "below-other-intent", "b": "child"}),
+         ("deep-other-arg", "<math><mfrac{I}><mrow arg='c'><mi>k</mi><mo>-</mo><msup><mi arg='a'>x</mi><mn>2</mn></msup></mrow><mi arg='b'>y</mi></mfrac></math>", {"a": "x", "b": "y", "c": "k"},
+          {"a": "below-other-arg", "b": "child", "c": "child"})]
 HEADS = ["zork", "frobnitz", "quux", "blarg"]
 
 
@@ -112,13 +121,13 @@ def run(tier):
     for si, st in enumerate(chosen):
         r2 = random.Random(C.seed() * 17 + si)
         hosts = r2.sample(HOSTS, 1 if tier == "quick" and not st.get("simple") else 2 if tier == "quick" else 3)
-        for hname, tmpl, args in hosts:
+        for hname, tmpl, args, places in hosts:
             v, dangling, head, refs = concretise(st["s"], r2, args)
-            cases.append((st["s"], hname, tmpl, args, v, dangling, head, refs))
+            cases.append((st["s"], hname, tmpl, args, v, dangling, head, refs, places))
     scripts = []
     for b in range(0, len(cases), 100):
         ops = [{"op": "set_rules_dir", "dir": "$RULES", "setup": True}, {"op": "set_pref", "name": "BrailleCode", "value": "Nemeth", "setup": True}]
-        for cls, hname, tmpl, args, v, dangling, head, refs in cases[b:b + 100]:
+        for cls, hname, tmpl, args, v, dangling, head, refs, places in cases[b:b + 100]:
             with_i, plain = tmpl.replace("{I}", f" intent='{attr(v)}'"), tmpl.replace("{I}", "")
             ops += [{"op": "set_pref", "name": "IntentErrorRecovery", "value": "IgnoreIntent"}, {"op": "set_mathml", "mathml": plain}, {"op": "speech"},
                     {"op": "set_mathml", "mathml": with_i}, {"op": "braille"}, {"op": "speech"}, {"op": "braille"}, {"op": "nav_mathml"},
@@ -132,7 +141,7 @@ def run(tier):
         for j in range(0, len(rs), 11):
             case = cases[k]
             k += 1
-            cls, hname, tmpl, args, v, dangling, head, refs = case
+            cls, hname, tmpl, args, v, dangling, head, refs, places = case
             g = rs[j:j + 11]
             if g[1]["r"] != "ok" or g[2]["r"] != "ok":
                 continue            # the host itself is not spoken: nothing to compare with
@@ -150,9 +159,9 @@ def run(tier):
             if ign["r"] == "ok" and head:
                 sp = ign["v"].lower()
                 words = [w for w in re.split(r"[-_.]", head.lower()) if w]
-                spoken_args = [args[a] for a in refs if a in args]
+                spoken_args = [args[a] for a in refs if a in args and places.get(a) in ("child", "below-plain")]
                 mentions = 1 if all(w in sp or w == "λ" and "lambda" in sp for w in words) and all(a in sp for a in spoken_args) else 0
-            events.append({"s": cls, "dangling": dangling, "known": 1 if head in known else 0, "setOk": set_ok,
+            events.append({"s": cls, "dangling": dangling, "refPlaces": [places[a] for a in refs if a in places], "known": 1 if head in known else 0, "setOk": set_ok,
                            "ignoreRes": ign["r"] if ign["r"] in ("ok", "err", "panic") else "err", "errorRes": err["r"] if err["r"] in ("ok", "err", "panic") else "err",
                            "ignoreIsPlain": 1 if ign["r"] == "ok" and ign["v"] == plain_speech else 0,
                            "bothEqual": 1 if (ign["r"], ign["v"]) == (err["r"], err["v"]) else 0, "mentions": mentions, "pure": pure})
@@ -160,7 +169,7 @@ def run(tier):
     rejects, _, _ = C.validate_trace("Trace_Intent", "Trace_Intent.cfg", events, wd, timeout=3000, heap="8g")
     verdict = C.Verdict(PID)
     for idx, reason in rejects:
-        (cls, hname, tmpl, args, v, dangling, head, refs), ign, err, plain_speech = back[idx - 1]
+        (cls, hname, tmpl, args, v, dangling, head, refs, places), ign, err, plain_speech = back[idx - 1]
         xml = tmpl.replace("{I}", f" intent='{attr(v)}'")
         text = f"{reason}: intent={v!r} on {hname}: IgnoreIntent -> {ign['r']} {str(ign['v'])[:120]!r}; Error -> {err['r']} {str(err['v'])[:160]!r}; without the attribute {plain_speech!r}"
         verdict.reject(f"{reason}|{hname}|{v}", text,
@@ -188,10 +197,10 @@ def run(tier):
 
 def selftest(tier):
     wd = C.workdir("c19_self")
-    ok = {"s": ["ns", "lp", "dl", "ns", "rp"], "dangling": 0, "known": 0, "setOk": 1, "ignoreRes": "ok", "errorRes": "ok", "ignoreIsPlain": 0, "bothEqual": 1, "mentions": 1, "pure": 1}
-    ev = [ok, dict(ok, ignoreRes="err"), dict(ok, s=["ns", "lp", "lp"], errorRes="ok"), dict(ok, errorRes="err", bothEqual=0, ignoreIsPlain=0), dict(ok, mentions=0), dict(ok, pure=0)]
+    ok = {"s": ["ns", "lp", "dl", "ns", "rp"], "dangling": 0, "refPlaces": ["child"], "known": 0, "setOk": 1, "ignoreRes": "ok", "errorRes": "ok", "ignoreIsPlain": 0, "bothEqual": 1, "mentions": 1, "pure": 1}
+    ev = [ok, dict(ok, ignoreRes="err"), dict(ok, s=["ns", "lp", "lp"], errorRes="ok"), dict(ok, errorRes="err", bothEqual=0, ignoreIsPlain=0), dict(ok, mentions=0), dict(ok, pure=0), dict(ok, refPlaces=["below-other-arg"])]
     rej, _, _ = C.validate_trace("Trace_Intent", "Trace_Intent.cfg", ev, wd)
-    if [i for i, _ in rej] != [2, 3, 4, 5, 6]:
+    if [i for i, _ in rej] != [2, 3, 4, 5, 6, 7]:
         raise C.ToolError(f"selftest: {rej}")
     C.log("[C19] selftest ok")
     return 0
